@@ -145,7 +145,7 @@ class Run:
         os.makedirs(self.dir, exist_ok=True)
         self.n = 0
 
-    def execute(self, ops_lines, model=True, impl=True, timeout=1800):
+    def execute(self, ops_lines, model=True, impl=True, timeout=1800, env=None):
         """returns (impl_lines, impl_stdout_text, model_lines)"""
         self.n += 1
         base = os.path.join(self.dir, f"r{self.n}")
@@ -156,7 +156,7 @@ class Run:
         procs = []
         if impl:
             so = open(base + ".stdout", "wb")
-            procs.append(("impl", subprocess.Popen([HARNESS, ops_path, base + ".impl"], stdout=so, stderr=subprocess.PIPE, env=ENV), so))
+            procs.append(("impl", subprocess.Popen([HARNESS, ops_path, base + ".impl"], stdout=so, stderr=subprocess.PIPE, env=(dict(ENV, **env) if env else ENV)), so))
         if model:
             mo = open(base + ".model", "wb")
             procs.append(("model", subprocess.Popen([DRIVER], stdin=open(ops_path, "rb"), stdout=mo, stderr=subprocess.PIPE), mo))
